@@ -309,8 +309,17 @@ def run_dataset(case):
     from neuroglancer_scripts import accessor as accessor_mod
     from neuroglancer_scripts import sharded_file_accessor
     rnd = random.Random(case["pseed"])
-    d = tempfile.mkdtemp(prefix="c09-")
+    top9 = tempfile.mkdtemp(prefix="c09-")
+    d = os.path.join(top9, "ds")
     obs = {"datasets": 1, "dataset_chunks_stored": 0, "dataset_shard_files": 0}
+    if case["pseed"] % 4 == 0:
+        # the dataset location is spelled with ".." after a symbolic link to a directory
+        # elsewhere; the operating system follows the link first
+        os.makedirs(os.path.join(top9, "store", "area"))
+        os.symlink(os.path.join(top9, "store", "area"), os.path.join(top9, "link"))
+        d = os.path.join(top9, "link", "..", "ds")
+        obs["dataset_spelled_with_dotdot_after_a_symlink"] = 1
+    os.mkdir(d)
     v = []
     scales = []
     for i, sc in enumerate(case["scales"]):
@@ -381,7 +390,7 @@ def run_dataset(case):
         v.append({"kind": "dataset-write-raised",
                   "detail": f"{ctx}: {type(exc).__name__}: {str(exc)[:160]}"})
     finally:
-        shutil.rmtree(d, ignore_errors=True)
+        shutil.rmtree(top9, ignore_errors=True)
     return {"violations": v[:6], "obs": obs, "evals": max(1, obs["dataset_chunks_stored"]),
             "distinct_disjoint": obs["dataset_chunks_stored"],
             "sample": {"kind": "dataset", "scales": case["scales"]}}
